@@ -306,6 +306,46 @@ theorem simdWrapper_eq_generic (zero : α) (add : α → α → α) (pssm : Mat 
     rw [rowsGeneric_ok zero add pssm seq.data a (b - a) _
       (reads_ok pssm seq a b hW hb hsym), hrun]
 
+/-! ### any row range: the same outcome, panics included
+
+With the row-range check of the repaired wrappers the SIMD backends agree with the generic backend
+on EVERY range `a..b`, also ranges reaching into or past the wrap rows: either both return the same
+result, or both panic (the generic code on its row index, the wrappers on the explicit check). -/
+
+/-- equal, or both a panic (messages are not compared) -/
+def SameOutcome {β : Type} (x y : Except String β) : Prop :=
+  x = y ∨ ∃ e₁ e₂, x = .error e₁ ∧ y = .error e₂
+
+theorem simdWrapper_same_outcome (hC : 0 < C) (zero : α) (add : α → α → α) (pssm : Mat α K)
+    (seq : Striped C) (a b : Nat) (sc : Scores α C) (run : Mat α C → Mat α C)
+    (hM : 1 ≤ pssm.rows) (hW : pssm.rows - 1 ≤ seq.wrap) (hsym : SymOK K seq)
+    (hrun : (∀ k j col, k < b - a → j < pssm.rows → col < C →
+        a + k + j < seq.data.rows ∧ seq.data.getD (a + k + j) col 0 < K) →
+      ∀ d, run d = genericRows zero add pssm seq.data a (b - a) d) :
+    SameOutcome (simdWrapper zero pssm seq a b sc run) (scoreRowsGeneric zero add pssm seq a b sc) := by
+  unfold simdWrapper scoreRowsGeneric
+  rw [if_neg (by omega), if_neg (by omega)]
+  by_cases hexit : seq.length < pssm.rows ∨ b ≤ a
+  · rw [if_pos hexit, if_pos hexit]; exact Or.inl rfl
+  · rw [if_neg hexit, if_neg hexit]
+    by_cases hout : b > seq.data.rows ∨ seq.data.rows - b < pssm.rows - 1
+    · -- out of range: the wrapper's explicit panic, the generic code's row index
+      rw [if_pos hout]
+      simp only [resize]
+      obtain ⟨e, he⟩ := rowsGeneric_error hC zero add pssm seq.data a (b - a)
+        (sc.data.resize (b - a) zero) (b - a - 1) (pssm.rows - 1) (by omega) (by omega) (by omega)
+      refine Or.inr ⟨"row-range", e, rfl, ?_⟩
+      rw [he]
+    · rw [if_neg hout]
+      have hok : ∀ k j col, k < b - a → j < pssm.rows → col < C →
+          a + k + j < seq.data.rows ∧ seq.data.getD (a + k + j) col 0 < K := by
+        intro k j col hk hj hcol
+        have h : a + k + j < seq.data.rows := by omega
+        exact ⟨h, hsym _ _ h hcol⟩
+      simp only [resize]
+      rw [rowsGeneric_ok zero add pssm seq.data a (b - a) _ hok, hrun hok]
+      exact Or.inl rfl
+
 theorem sext32_small (v : Nat) (h : v < 2147483648) : Isa.sext32 v = Int.ofNat v := by
   unfold Isa.sext32
   have : v % 4294967296 = v := Nat.mod_eq_of_lt (by omega)
@@ -434,6 +474,93 @@ theorem dispatchU8_all_arms (arm : Arm) (zero : α) (addSat : α → α → α)
       scoreRowsGeneric zero addSat pssm seq a b sc := by
   rw [dispatchU8_eq_generic arm zero addSat addSat pssm hK seq a b sc hM hW hb hsym]
   split <;> rfl
+
+/-- **C01 (1)/(2)/(6), any row range.**  For `M ≥ 1` and `wrap ≥ M − 1`, on EVERY row range `a..b`
+    (inside the sequence rows or not) each SIMD backend and each dispatcher arm has the same outcome
+    as the generic backend: the same result matrix and `max_index`, or a panic on both sides. -/
+theorem scorePermute_same_outcome (zero : α) (add : α → α → α) (pssm : Mat α K) (hK : K ≤ 8)
+    (seq : Striped 32) (a b : Nat) (sc : Scores α 32)
+    (hM : 1 ≤ pssm.rows) (hW : pssm.rows - 1 ≤ seq.wrap) (hsym : SymOK K seq) :
+    SameOutcome (Avx2.scorePermute zero add pssm seq a b sc)
+      (scoreRowsGeneric zero add pssm seq a b sc) := by
+  unfold Avx2.scorePermute
+  rw [if_neg (by omega)]
+  apply simdWrapper_same_outcome (by decide) zero add pssm seq a b sc _ hM hW hsym
+  intro hok d
+  apply Avx2.kernel_eq_genericRows Avx2.permuteTables Avx2.permute_table zero add pssm
+    (Avx2.lookupPermute zero pssm) (fun j sym => pssm.getD j (sym % 8) zero)
+  · intro j idx l; rfl
+  · intro j sym hs
+    rw [Nat.mod_eq_of_lt (by omega)]
+  · intro k j col hk hj hcol
+    exact (hok k j col hk hj hcol).2
+
+theorem scoreGather_same_outcome (zero : α) (add : α → α → α) (pssm : Mat α K) (hK : K ≤ 256)
+    (seq : Striped 32) (a b : Nat) (sc : Scores α 32)
+    (hM : 1 ≤ pssm.rows) (hW : pssm.rows - 1 ≤ seq.wrap) (hsym : SymOK K seq) :
+    SameOutcome (Avx2.scoreGather zero add pssm seq a b sc)
+      (scoreRowsGeneric zero add pssm seq a b sc) := by
+  unfold Avx2.scoreGather
+  apply simdWrapper_same_outcome (by decide) zero add pssm seq a b sc _ hM hW hsym
+  intro hok d
+  apply Avx2.kernel_eq_genericRows Avx2.gatherTables Avx2.gather_table zero add pssm
+    (Avx2.lookupGather zero pssm)
+    (fun j sym => if 0 ≤ Isa.sext32 sym then pssm.getD j (Isa.sext32 sym).toNat zero else zero)
+  · intro j idx l; rfl
+  · intro j sym hs
+    rw [sext32_small sym (by omega)]
+    simp
+  · intro k j col hk hj hcol
+    exact (hok k j col hk hj hcol).2
+
+theorem scoreU8_same_outcome (zero : α) (add : α → α → α) (pssm : Mat α K) (hK : K ≤ 16)
+    (seq : Striped 32) (a b : Nat) (sc : Scores α 32)
+    (hM : 1 ≤ pssm.rows) (hW : pssm.rows - 1 ≤ seq.wrap) (hsym : SymOK K seq) :
+    SameOutcome (Avx2.scoreU8 zero add pssm seq a b sc)
+      (scoreRowsGeneric zero add pssm seq a b sc) := by
+  unfold Avx2.scoreU8
+  apply simdWrapper_same_outcome (by decide) zero add pssm seq a b sc _ hM hW hsym
+  intro hok d
+  apply Avx2.kernelU8_eq_genericRows zero add pssm hK
+  intro k j col hk hj hcol
+  exact (hok k j col hk hj hcol).2
+
+theorem scoreSse2_same_outcome (zero : α) (add : α → α → α) (hz : ∀ x, add x zero = x)
+    (pssm : Mat α K) (hC0 : 0 < C) (hC : 16 ∣ C) (seq : Striped C) (a b : Nat) (sc : Scores α C)
+    (hM : 1 ≤ pssm.rows) (hW : pssm.rows - 1 ≤ seq.wrap) (hsym : SymOK K seq) :
+    SameOutcome (Sse2.score zero add pssm seq a b sc)
+      (scoreRowsGeneric zero add pssm seq a b sc) := by
+  unfold Sse2.score
+  apply simdWrapper_same_outcome hC0 zero add pssm seq a b sc _ hM hW hsym
+  intro hok d
+  apply Sse2.kernel_eq_genericRows zero add hz pssm hC
+  intro k j col hk hj hcol
+  exact (hok k j col hk hj hcol).2
+
+theorem dispatchF32_same_outcome (arm : Arm) (zero : α) (add : α → α → α) (hz : ∀ x, add x zero = x)
+    (pssm : Mat α K) (hK : K ≤ 256) (seq : Striped 32) (a b : Nat) (sc : Scores α 32)
+    (hM : 1 ≤ pssm.rows) (hW : pssm.rows - 1 ≤ seq.wrap) (hsym : SymOK K seq) :
+    SameOutcome (dispatchF32 arm zero add pssm seq a b sc)
+      (scoreRowsGeneric zero add pssm seq a b sc) := by
+  cases arm
+  · exact Or.inl rfl
+  · exact scoreSse2_same_outcome zero add hz pssm (by decide) (by decide) seq a b sc hM hW hsym
+  · unfold dispatchF32 Avx2.scoreF32
+    simp only
+    split
+    · rename_i h
+      exact scorePermute_same_outcome zero add pssm h seq a b sc hM hW hsym
+    · exact scoreGather_same_outcome zero add pssm hK seq a b sc hM hW hsym
+
+theorem dispatchU8_same_outcome (arm : Arm) (zero : α) (addSat : α → α → α)
+    (pssm : Mat α K) (hK : K ≤ 16) (seq : Striped 32) (a b : Nat) (sc : Scores α 32)
+    (hM : 1 ≤ pssm.rows) (hW : pssm.rows - 1 ≤ seq.wrap) (hsym : SymOK K seq) :
+    SameOutcome (dispatchU8 arm zero addSat addSat pssm seq a b sc)
+      (scoreRowsGeneric zero addSat pssm seq a b sc) := by
+  cases arm
+  · exact Or.inl rfl
+  · exact Or.inl rfl
+  · exact scoreU8_same_outcome zero addSat pssm hK seq a b sc hM hW hsym
 
 /-! ## §E  every pipeline computes the window score -/
 
@@ -694,6 +821,13 @@ example : (match Avx2.scoreF32 0 (· + ·) exP (stripeGeneric (C := 32) 4 exS32 
     | .ok _ => false | .error _ => true) = true := by decide +kernel
 example : (match scoreRowsGeneric 0 (· + ·) exP (stripeGeneric (C := 32) 4 exS32 Striped.empty) 0 2 Score.empty with
     | .ok _ => false | .error _ => true) = true := by decide +kernel
+-- a range past the matrix: the repaired wrapper and the generic code both panic (SameOutcome, right disjunct)
+example : (match Avx2.scoreF32 0 (· + ·) exP exSeq32 1 3 Score.empty,
+    scoreRowsGeneric 0 (· + ·) exP exSeq32 1 3 Score.empty with
+    | .error _, .error _ => true | _, _ => false) = true := by decide +kernel
+-- the full range, whose last row reads the wrap row: both compute, and agree (SameOutcome, left disjunct)
+example : unOf (Sse2.score 0 (· + ·) exP exSeq32 0 2 Score.empty) =
+    unOf (scoreRowsGeneric 0 (· + ·) exP exSeq32 0 2 Score.empty) := by decide +kernel
 -- the law `add x zero = x` of the SSE2 theorem is not vacuous either: it holds for exact numbers
 example : ∀ x : Int, x + 0 = x := Int.add_zero
 -- exact arithmetic: a `⊥` entry makes exactly the windows that meet it `⊥`
